@@ -2,9 +2,9 @@ SPECIFICATION Spec
 CONSTANTS
   Shapes = {"full"}
   MaxTampers = 1
-  TamperSet = {"sts_alter", "sts_foreign_tree", "vps_other_round", "checksum", "ops_foreign_tree"}
+  TamperSet = {"sts_alter", "sts_foreign_tree", "vps_other_round", "avp_prev", "checksum", "ops_foreign_tree"}
   AllOrders = TRUE
   OrderSet <- OrdersQuick
-INVARIANTS HonestStorable TampersBreak ChecksumsKept OrderIndependent ImporterChecks
+INVARIANTS HonestStorable TampersBreak ChecksumsKept OrderIndependent ImporterChecks FactsAgree
 VIEW View
 CHECK_DEADLOCK FALSE
